@@ -564,21 +564,41 @@ func fragNodes(f bcl.Frag) []pnode {
 	return []pnode{{99, f.Start, f.End}}
 }
 
+// stmtNodes flattens a tree node in the model's order (header nodes, 13, the body, 14) with an
+// explicit stack: block nesting of any depth (10^6 in stream deepblocks) must not overflow the stack
+// here, and appending the children into one slice keeps it linear.
 func stmtNodes(f bcl.Frag) []pnode {
-	switch f.Kind {
-	case "block":
-		out := headerNodes(f)
-		out = append(out, pnode{13, bcl.Point{}, bcl.Point{}})
-		for _, b := range f.Body {
-			out = append(out, stmtNodes(b)...)
-		}
-		return append(out, pnode{14, bcl.Point{}, bcl.Point{}})
-	case "assign":
-		return assignNodes(f)
-	case "desc":
-		return descNodes(3, f)
+	var out []pnode
+	type frame struct {
+		body []bcl.Frag
+		idx  int
 	}
-	return []pnode{{99, f.Start, f.End}}
+	stack := []frame{{body: []bcl.Frag{f}}}
+	for len(stack) > 0 {
+		top := &stack[len(stack)-1]
+		if top.idx == len(top.body) {
+			stack = stack[:len(stack)-1]
+			if len(stack) > 0 {
+				out = append(out, pnode{14, bcl.Point{}, bcl.Point{}})
+			}
+			continue
+		}
+		x := top.body[top.idx]
+		top.idx++
+		switch x.Kind {
+		case "block":
+			out = append(out, headerNodes(x)...)
+			out = append(out, pnode{13, bcl.Point{}, bcl.Point{}})
+			stack = append(stack, frame{body: x.Body})
+		case "assign":
+			out = append(out, assignNodes(x)...)
+		case "desc":
+			out = append(out, descNodes(3, x)...)
+		default:
+			out = append(out, pnode{99, x.Start, x.End})
+		}
+	}
+	return out
 }
 
 // ---- running things under recover and a deadline ---------------------------------------
